@@ -1,8 +1,8 @@
 (* Extraction of the `lowerstmt` component's executable model (ExtrOcamlBasic + ExtrOcamlString:
    Coq strings become OCaml char lists; nat / Z / positive stay inductive). *)
 From Coq Require Import ZArith ExtrOcamlBasic ExtrOcamlString.
-From HidV Require Import GenTables OpTables LowerBoolModel LowerStmtModel.
+From HidV Require Import GenTables OpTables LowerBoolModel LowerStmtModel LowerStmtSem.
 
 Extraction "../ocaml/hidlowerstmt_core.ml"
   lower_body lower_stmts need_stmts is_you_senv print_aline lower_program state_section print_dline
-  Z.add Z.mul Z.opp.
+  icall run_ok_b Z.add Z.mul Z.opp.
